@@ -367,6 +367,10 @@ func (c14Engine) Exec(t *testing.T, cc any) *simrt.Result {
 			plan.Disarm()
 			plan.Hook = nil
 			cancel()
+			// database/sql rolls a cancelled transaction back on a goroutine of its
+			// own: let it finish (quiescence of the bubble) so that what follows
+			// does not depend on real-time lock waits inside SQLite
+			sim.S.Wait()
 			st.Fault("drv-cancel")
 			if err != nil { // (cancellation may come too late to matter for the last calls)
 				if q, qerr := c14Ask(dc, probes); qerr != nil {
